@@ -1,10 +1,12 @@
 #!/bin/bash
 # Runs every registered check (quick by default) and prints one summary line per property.
 TIER=${1:-quick}
+shift
+# further arguments are handed to every check (e.g. --budget 1000)
 cd "$(dirname "$0")/.."
 for p in $(python3 -c "import json;print(' '.join(c['property_id'] for c in json.load(open('MANIFEST.json'))['checks']))"); do
   s=$(date +%s)
-  out=$(sim/check $p --tier $TIER 2>&1); rc=$?
+  out=$(sim/check $p --tier $TIER "$@" 2>&1); rc=$?
   e=$(date +%s)
   echo "$p rc=$rc $((e-s))s :: $(echo "$out" | grep -E '^property=|VIOLATION|KNOWN-FINDING|HARNESS' | tr '\n' ' ' | cut -c1-300)"
   echo "$out" | grep -E "^  class=" | head -5
